@@ -230,8 +230,16 @@ RESPS = [("r-none", None), ("r-empty", {}), ("r-v4zero", {"ipv4": 0}), ("r-v4", 
          ("r-port8443", {"dstport": 8443, "portrand": 1}), ("r-cc", {"cc": 5})]
 
 
-def wrapper_corpus(rng, n_random):
-    """(label, spec) — single-dimension variations around well-formed bases, then pairs, then a random stream"""
+def fixed_rng(tag):
+    """the enumerated part of every generator is independent of VERIF_SEED: only the malformed/random streams use ctx.rng"""
+    import random
+    return random.Random("C11-fixed-" + tag)
+
+
+def wrapper_corpus(seed_rng, n_random):
+    """(label, spec) — single-dimension variations around well-formed bases, then pairs (all independent of the seed),
+    then a seeded random stream"""
+    rng = fixed_rng("wrappers")
     out = []
     for tr in (1, 2, 3, 4):
         for lv in (0, 2, 3, 4):
@@ -246,13 +254,13 @@ def wrapper_corpus(rng, n_random):
         w["secret"] = bytes(range(n))
         out.append(("secret%d" % n, w))
     for lbl, a in ADDRS:
-        for tr in (1, 4):
-            w = base_wrapper(tr, rng=rng)
+        for tr, gen in ((1, 957), (4, 957), (1, 1), (4, 1)):   # generation 1 has a single group with both families
+            w = base_wrapper(tr, gen=gen, rng=rng, secret=SECRETS[1])
             if a is not None:
                 w["regaddr"] = a
             else:
                 del w["regaddr"]
-            out.append(("%s/t%d" % (lbl, tr), w))
+            out.append(("%s/t%d/g%d" % (lbl, tr, gen), w))
         w = base_wrapper(rng=rng)
         if a is not None:
             w["decoyaddr"] = a
@@ -323,7 +331,8 @@ def wrapper_corpus(rng, n_random):
             w = base_wrapper(4, rng=rng) if pl == "full" else {"secret": SECRET}
             w["resp"] = {"params": a} if a is not None else {}
             out.append(("resp-params/%s/%s" % (pl, lbl), w))
-    # random combinations (malformed stream)
+    # random combinations (malformed stream) — the only seed-dependent part
+    rng = seed_rng
     for k in range(n_random):
         w = {}
         if rng.random() < 0.9:
@@ -358,7 +367,7 @@ def garbage_msgs(rng, n):
     out = [("g-empty", b""), ("g-ff", b"\xff"), ("g-trunc-len", b"\x0a\x20abc"), ("g-badwire", b"\x0f\x01"),
            ("g-nested-trunc", pb.f_bytes(3, b"\x10")), ("g-any-trunc", pb.f_bytes(3, pb.f_bytes(13, b"\x0a\x05ab"))),
            ("g-resp-trunc", pb.f_bytes(8, b"\x0d\x01\x02")), ("g-zero-field", b"\x00\x00")]
-    base = pb.enc_wrapper(base_wrapper(4, rng=rng))
+    base = pb.enc_wrapper(base_wrapper(4, rng=fixed_rng("garbage")))
     for k in range(n):
         b = bytearray(base)
         for _ in range(rng.choice([1, 1, 2, 4])):
@@ -600,7 +609,7 @@ def gen_api(ctx, corpus, garbage):
         for handler in ("uni", "bidi"):
             for ccgen in ((None, 1, 1000) if (nopl or lbl.startswith(("base/", "gen-", "w-"))) else (1000,)):
                 add(("no-payload" if nopl else cls) + ("/server-cc-newer" if (ccgen is not None and ccgen > cgen) else ""), handler, body, ccgen=ccgen)
-    base = pad33(base_wrapper(1, rng=ctx.rng))
+    base = pad33(base_wrapper(1, rng=fixed_rng("api")))
     nopl = pad33({"secret": SECRET})
     for handler in ("uni", "bidi"):
         for lbl, b in garbage:
@@ -701,7 +710,7 @@ def post_dnsproc(ctx, cases, meta, res):
 
 # ---------------------------------------------------------------- first flight: min / prefix
 def gen_prefix(ctx, tbl):
-    rng = ctx.rng
+    rng = fixed_rng("prefix")
     cases = [{"op": "dump"}]
     regsets = [[], [{"is_prefix": True, "pkind": "pref", "pid": 0}]]
     lens = [0, 1, 5, 6, 16, 31, 32, 33, 63, 64, 65, 69, 70, 71, 79, 80, 81, 84, 85, 86, 100, 300]
@@ -836,7 +845,7 @@ def b32labels(payload, lower=True):
 
 
 def gen_dns(ctx):
-    rng = ctx.rng
+    rng = fixed_rng("dns")
     OPT = (b"\x00", 41, 4096, 0, b"")
     pkts = []
 
@@ -921,6 +930,9 @@ def gen_dns(ctx):
     pkts.append(("rdata-trunc", dns_msg(9, 0, [q(good)]) [:-0 or None] + b"\x00\x00\x29\x10\x00\x00\x00\x00\x00\x00\x09ab"))
     # random and mutated packets
     n_rand = 60 if ctx.tier == "quick" else 1500
+    if os.environ.get("VERIF_C11_NORANDOM") == "1":
+        n_rand = 0
+    rng = ctx.rng      # from here on: the seeded stream
     for _ in range(n_rand):
         pkts.append(("random", rb(rng.choice([0, 1, 11, 12, 13, 17, 40, 100]))))
     for _ in range(n_rand):
@@ -933,6 +945,7 @@ def gen_dns(ctx):
     pkts = [(l, p, None, 0) for l, p in pkts]
     # well-formed queries whose noise layer decrypts (built by the driver with the responder's public key): the registration
     # callback is reached and its answer travels back through AddResponseFormat / EncodeRDataTXT / WireFormat
+    rng = fixed_rng("dns2")
     for plain, rl in ((b"", 0), (b"hello", 10), (pb.enc_wrapper({"secret": SECRET, "payload": {"gen": 957, "transport": 1, "v4": 1}}), 255),
                       (b"x" * 80, 256), (b"y" * 60, 1000), (b"z" * 5, 1190), (b"z" * 6, 5000), (b"w" * 7, 70000)):
         pkts.append(("noise-valid", b"", plain, rl))
@@ -1209,8 +1222,9 @@ def run_(ctx):
         ctx.broken("examples", "coq/C11/Examples.v (non-vacuity examples, witness of finding #8 on the pre-fix model) or Run.v no longer compiles: " + out[-500:])
     quick = ctx.tier == "quick"
     rng = ctx.rng
-    corpus = wrapper_corpus(rng, 120 if quick else 2500)
-    garbage = garbage_msgs(rng, 40 if quick else 800)
+    norandom = os.environ.get("VERIF_C11_NORANDOM") == "1"   # self-test: the enumerated part alone must hit every required class
+    corpus = wrapper_corpus(rng, 0 if norandom else (120 if quick else 2500))
+    garbage = garbage_msgs(rng, 0 if norandom else (40 if quick else 800))
     for c in (ctx.replay or {}).get("wrappers", []):
         garbage.insert(0, ("replay", bytes.fromhex(c)))
 
